@@ -77,6 +77,14 @@ CHECKS = {
             "exhaustive enumeration of teardown points (call-history prefixes: after handle creation, rejected/accepted configuration, init, k pictures with/without draining, EOS, partial and full drain) x configurations, each executed on the real library under the controlled scheduler with LeakSanitizer",
             "Every teardown point of the alphabet is executed; deinit and deinit_handle must return (a teardown that blocks is a detected deadlock), no thread may remain, LeakSanitizer must report nothing, and 5 create/encode/destroy cycles must not increase the exact live-heap byte count.",
             "canonical schedule; 64x64/128x128 sessions with <= 19 pictures; decoder sessions with 1 and 3 threads", "4/C15"),
+    "C07": ("kern_gen + kern_h (per-signature-class drivers)", "exploration",
+            "generator parses the SET_* dispatch entries and prototypes of the current tree into a C table; per-signature-class drivers call the C function and every SIMD variant in the build over an exhaustively enumerated argument alphabet (block sizes, strides, bit depths, every value of small scalar parameters, pixel/coefficient pattern alphabet, complete {min,max}^n cubes for inputs of <= 16 samples); outputs poisoned and compared over the whole allocation",
+            "Every dispatch pointer with a SIMD variant in the library build (767 of 780; 799 kernel/variant pairs) is compared bit-exactly with its C reference on every tuple of its driver's stated alphabet (38M calls quick, 139M thorough), restricted to the domain the library's call sites can pass; C-only pointers and AVX-512 variants are listed and not run.",
+            "the C function bound by the dispatch table is the oracle; AVX-512 kernels not compiled in the default build; pattern alphabets per driver stated in the evidence; float outputs compared bitwise (sign-of-zero-only differences under their own key)", "4/C07"),
+    "C25": ("ec_h", "exploration",
+            "exhaustive enumeration of all operation sequences up to length L over stated operation alphabets (symbols of n-ary CDFs with 5 table shapes, bools, literals; adaptation off/on) plus constructed long families (k = 1..4096 repetitions with every prefix/suffix of length <= 2, carry-chain constructions, empty sequence), written with the real writer and read back with the real reader",
+            "Every sequence of the four layers (185 operations to length 3, 56 to 4, 16 to 6, 6 to 8; thorough 4/5/8/10) and of the long families round-trips: reader values equal the written ones, reader and writer CDFs equal after every symbol, ceil(svt_od_ec_enc_tell/8) >= bytes emitted, no encoder error (78M sequences quick, 12.8e9 thorough).",
+            "reader = the static inline functions of EbDecBitstreamUnit.h / EbDecBitReader.h compiled into the harness; alphabets and lengths bound the claim", "4/C25"),
 }
 
 NOT_YET = {}
